@@ -140,6 +140,12 @@ GraphCalls ==
   \cup {[C("NodePrepend") EXCEPT !.n = a, !.vs = ns] : a \in N, ns \in [1..1 -> N]}
   \cup {[C("NodeAppend") EXCEPT !.n = a, !.vs = ns] : a \in N, ns \in [1..1 -> N]}
 
+\* replace_nodes_and_values: one old node (also the insertion point, or another anchor), one new node or none,
+\* one pair of values
+ReplaceCalls ==
+  {[C("ReplaceNodes") EXCEPT !.g = g, !.n = ip, !.vs = <<o>>, !.ws = nw, !.v = v, !.w = w] :
+      g \in G, ip \in N, o \in N, nw \in {<<>>} \cup [1..1 -> N], v \in PV, w \in PV}
+
 \* Node(...): few input shapes (none / one / the same value twice / value and None), fresh or supplied outputs
 NewNodeCalls ==
   IF Len(st.nIn) >= MaxNodes THEN {}
@@ -148,7 +154,8 @@ NewNodeCalls ==
        \cup {[C("NewNode") EXCEPT !.vs = <<>>, !.ws = outs, !.i = 0, !.g = g] :
             outs \in [1..1 -> PV] \cup {q \in VPairs : q[1] <= q[2]}, g \in {0, 1}}
 
-Calls == {c \in IOCalls \cup InitCalls \cup NodeCalls \cup GraphCalls \cup NewNodeCalls :
+Calls == {c \in IOCalls \cup InitCalls \cup NodeCalls \cup GraphCalls \cup NewNodeCalls
+                \cup (IF "ReplaceNodes" \in Focus THEN ReplaceCalls ELSE {}) :
              /\ c.op \in Focus
              /\ (c.g \in OpGraphs \cup {0} \/ c.op \in ForeignOps)}
 
